@@ -148,10 +148,18 @@ inductive Path : Sk → List ROp → Prop where
 /-- does a recorded op equal the op of the skeleton? -/
 def opMatches (o x : ROp) : Bool := o == x
 
-/-- loop matcher: all remainders after 0..n passes through `f` that consume something -/
-def starRes (f : List ROp → List (List ROp)) : Nat → List ROp → List (List ROp)
-  | 0, t => [t]
-  | n + 1, t => t :: ((f t).filter (fun r => r.length < t.length)).flatMap (starRes f n)
+/-- loop matcher, breadth first: `seen` = the remainders reached so far, `frontier` = those reached in the last
+    round; a round that reaches nothing new ends the search (remainders are suffixes of the trace, so there are at
+    most `length + 1` of them and the search is polynomial, whatever the trace) -/
+def starLoop (f : List ROp → List (List ROp)) : Nat → List (List ROp) → List (List ROp) → List (List ROp)
+  | 0, _, seen => seen
+  | n + 1, frontier, seen =>
+    let next := ((frontier.flatMap f).eraseDups).filter (fun r => !seen.contains r)
+    if next.isEmpty then seen else starLoop f n next (seen ++ next)
+
+/-- all remainders after 0..n passes through `f` -/
+def starRes (f : List ROp → List (List ROp)) (n : Nat) (t : List ROp) : List (List ROp) :=
+  starLoop f (n + 1) [t] [t]
 
 /-- remainders of a recorded trace after one pass through the skeleton; a trace that ends early (return,
     exception) matches: run-time traces are prefixes of paths -/
